@@ -276,6 +276,12 @@ func runC17(ctx *Ctx, idx int) {
 	switch {
 	case idx < len(dir):
 		ks = dir[idx]
+	case idx < len(dir)+8:
+		// deep, skinny tries with thousands of keys: every node near the root has
+		// thousands of keys below it and a fan-out of two
+		j := idx - len(dir)
+		depth := []int{2500, 6000}[j/4]
+		ks = KeySet{"adv:big-caterpillar", genDeepStyle(r, depth, j%4)}
 	case idx%2 == 0:
 		ks = genAdversarial(r, scale)
 	default:
@@ -492,6 +498,7 @@ func runC19(ctx *Ctx, idx int) {
 	opts := allOptSets()
 	first := true
 	for t := 0; t < 4; t++ {
+		ctx.Beat()
 		o := opts[(idx*5+t*7)%16]
 		m := NewModel(keys, vals, o.D)
 		viol := func(clause string, inst string, ex map[string]interface{}) {
@@ -543,6 +550,31 @@ func runC19(ctx *Ctx, idx int) {
 			viol("loaded-renders-differently", "loaded", map[string]interface{}{"fresh_len": len(s1), "loaded_len": len(s2)})
 		}
 		ctx.Count("fresh_equals_loaded", 1)
+		// the same stream loaded into an instance that holds another trie and
+		// has already been rendered
+		if t%2 == 0 {
+			var s3 string
+			pv, stack = try(func() {
+				used, err := trie.NewSlimTrie(vals.Encoder(), []string{"old", "older", "oldest"}, nil, trie.Opt{Complete: trie.Bool(true)})
+				if err != nil {
+					return
+				}
+				_ = used.String()
+				_ = used.Stat()
+				if err := used.Unmarshal(stream); err != nil {
+					s3 = "ERR " + err.Error()
+					return
+				}
+				s3 = used.String()
+			})
+			if pv != nil {
+				viol("panic", "reloaded", map[string]interface{}{"panic": fmt.Sprint(pv), "stack": stack})
+			} else if s3 != s1 {
+				viol("reloaded-renders-differently", "reloaded", map[string]interface{}{"fresh_len": len(s1), "reloaded_len": len(s3), "reloaded_head": truncate(s3, 200)})
+			} else {
+				ctx.Count("fresh_equals_reloaded_into_used_instance", 1)
+			}
+		}
 		if ctx.WantSample() && n >= 3 && n <= 6 {
 			ctx.Sample(map[string]interface{}{"keys_hex": hexKeys(keys, 6), "values": vals.Describe(6), "opt": o.String(), "rendering": strings.Split(s1, "\n")})
 		}
@@ -566,7 +598,7 @@ func init() {
 	})
 	register(&CheckDef{
 		ID: "C17", Level: "exploration",
-		Rule: "case = key set (generated families, adversarial shapes: caterpillars, long steps on every inner node, byte fan-out k in 2..12 and 256 at depth 1..4, all-distinct label bitmaps, 16 KiB keys) built with default options and nil values; oracle: len(Marshal) == proto.Size, size <= 8*|K|+256, and for prefixes P of 1/7/100/5000/16000 bytes (kept within the 16 KiB key limit) |size(P+K)-size(K)| <= 16+ceil(|K|/64) and sizes for different P agree within the same tolerance; non-trivial = at least 2 keys",
+		Rule: "case = key set (generated families, adversarial shapes: caterpillars (also 2500 and 6000 levels deep in four styles), long steps on every inner node, byte fan-out k in 2..12 and 256 at depth 1..4, all-distinct label bitmaps, 16 KiB keys) built with default options and nil values; oracle: len(Marshal) == proto.Size, size <= 8*|K|+256, and for prefixes P of 1/7/100/5000/16000 bytes (kept within the 16 KiB key limit) |size(P+K)-size(K)| <= 16+ceil(|K|/64) and sizes for different P agree within the same tolerance; non-trivial = at least 2 keys",
 		NumCases: func(tier string) int {
 			if tier == "thorough" {
 				return 8000
@@ -577,7 +609,7 @@ func init() {
 		MinNontrivial: func(tier string) int { return 300 },
 		Gates: func(tier string, m *Merged) []string {
 			var missed []string
-			for _, g := range []string{"prefixed_pairs", "family:adv:caterpillar", "family:adv:long-steps", "family:adv:distinct-bitmaps", "family:adv:fanout-11", "family:adv:fanout-2", "family:adv:fanout-256"} {
+			for _, g := range []string{"prefixed_pairs", "family:adv:caterpillar", "family:adv:big-caterpillar", "family:adv:long-steps", "family:adv:distinct-bitmaps", "family:adv:fanout-11", "family:adv:fanout-2", "family:adv:fanout-256"} {
 				if m.C(g) == 0 {
 					missed = append(missed, g)
 				}
@@ -591,7 +623,7 @@ func init() {
 	})
 	register(&CheckDef{
 		ID: "C19", Level: "exploration",
-		Rule: "case = (key list steered towards regular shapes so that short-node tables of many sizes and 257-bit nodes occur, value list) x 4 rotating option sets; oracle: String() does not panic; every line parses; node ids are exactly 0..lines-1, each once; the leaf lines read top to bottom carry the retained values in key order; the loaded trie renders byte-identically; non-trivial = at least 2 retained keys",
+		Rule: "case = (key list steered towards regular shapes so that short-node tables of many sizes and 257-bit nodes occur, value list) x 4 rotating option sets; oracle: String() does not panic; every line parses; node ids are exactly 0..lines-1, each once; the leaf lines read top to bottom carry the retained values in key order; the loaded trie renders byte-identically, also when loaded into an instance that holds another trie and was rendered before; non-trivial = at least 2 retained keys",
 		NumCases: func(tier string) int {
 			if tier == "thorough" {
 				return 6000
@@ -613,7 +645,7 @@ func init() {
 			if tier == "quick" && sizes < 3 {
 				missed = append(missed, "at least 3 short-table sizes")
 			}
-			for _, g := range []string{"shape:with_257bit_nodes", "shape:with_straddling_short", "fresh_equals_loaded"} {
+			for _, g := range []string{"shape:with_257bit_nodes", "shape:with_straddling_short", "fresh_equals_loaded", "fresh_equals_reloaded_into_used_instance"} {
 				if m.C(g) == 0 {
 					missed = append(missed, g)
 				}
